@@ -183,7 +183,7 @@ def compare_normal(impl, model, rtol, where=""):
     for i in range(N):
         for a in range(len(mm[i])):
             b = float(mm[i][a])
-            tol = rtol * (abs(b) + sd[i]) + 1e-13 * mag
+            tol = rtol * (abs(b) + sd[i]) + 1e-11 * mag
             err = abs(mi[i][a] - b)
             if not err <= tol:
                 return f"{where} mean[{i}][{a}]: implementation {mi[i][a]!r} vs model {b!r}", None
